@@ -70,7 +70,7 @@ class FaultAware:
         w = op.split()
         kind = w[0]
         if " | " not in line:
-            return "malformed result line"
+            raise ValueError("malformed result line")      # truncated by a dying harness, or garbage
         res = line.split(" | ", 1)[0]
         if res.startswith("fault ") or res.startswith("dead"):
             return "undefined behaviour predicted: " + res
@@ -112,7 +112,7 @@ class FaultAware:
         # ordinary completion: judged by the ideal container
         if kind == "new":
             self.fa_new(w, True)
-        if kind == "rt":
+        if kind == "rt" and body != "nonul":
             self.ts = False             # the table is replaced by a plain one with the given options
         bad = self.base_step(op, line)
         if bad:
@@ -350,8 +350,8 @@ def hash_streams(check, prop):
                                        kop("putstrf", k, hexs(v.replace(b"\0", b"z") * rng.choice([1, 1, 300]))),
                                        kop("putint", k, str(rng.randrange(-99, 99))), kop("get", k, "1"), kop("get", k, "0"),
                                        kop("getstr", k), kop("getint", k), kop("rm", k), "next 1", "next 0", "reset", "size",
-                                       "walk 1", "new %d %s" % (r, rng.choice("01"))]))
-            ops += ["walk 0", "end"]
+                                       "walk 1", "new %d %s" % (r, rng.choice("01")), "inv", "lock"]))
+            ops += ["walk 0", "inv", "end"]
         sts.append(S("random-faults", ops))
     else:
         # C11 / C12: ordinary histories, ledger after every operation and at release; every copy
@@ -370,8 +370,8 @@ def hash_streams(check, prop):
                                        kop("putstrf", k, hexs(v.replace(b"\0", b"z") * rng.choice([1, 1, 100]))),
                                        kop("putint", k, str(rng.randrange(-10 ** 6, 10 ** 6))), kop("get", k, "1"), kop("get", k, "1"),
                                        kop("get", k, "0"), kop("getstr", k), kop("getint", k), kop("rm", k), kop("rm", k),
-                                       "next 1", "next 1", "reset", "size", "walk 1", "clear"][:20 if rng.random() < 0.9 else 21]))
-            ops += ["walk 1", "end"]
+                                       "next 1", "next 1", "reset", "size", "walk 1", "inv", "lock", "clear"][:22 if rng.random() < 0.9 else 23]))
+            ops += ["walk 1", "inv", "end"]
         sts.append(S("random-histories", ops))
         # distinct names with identical 32-bit hash (both insertion orders); putstrf around the buffer sizes
         ops = []
@@ -507,8 +507,8 @@ def list_streams(check, prop):
                                        kop("getmulti", k, rng.choice("012")), kop("rm", k), "next 1", "next 0", nkey("nextn", k, "1"),
                                        "reset", "rmobj", "size", "sort", "walk 1", "save 3d 1",
                                        "load %s 3d %s" % (hexs(rng.choice(files)), rng.choice("01")),
-                                       "new %s %s" % (o, rng.choice("01"))]))
-            ops += ["walk 0", "end"]
+                                       "new %s %s" % (o, rng.choice("01")), "inv", "lock", "walkrmc %d" % rng.getrandbits(5)]))
+            ops += ["walk 0", "inv", "end"]
         sts.append(S("random-faults", ops))
     else:
         ops = []
@@ -526,8 +526,9 @@ def list_streams(check, prop):
                                        kop("getstr", k), kop("getint", k), kop("getmulti", k, "1"), kop("getmulti", k, "2"),
                                        kop("getmulti", k, "0"), kop("rm", k), "next 1", "next 1", nkey("nextn", k, "1"), "rmobj",
                                        "reset", "size", "sort", "walk 1", nkey("walkn", k, "1"), "walkrm %d" % rng.getrandbits(6),
-                                       "save 3d 1", "load %s 3d 1" % hexs(rng.choice(files)), "rt 3d " + o]))
-            ops += ["walk 1", "end"]
+                                       "save 3d 1", "load %s 3d 1" % hexs(rng.choice(files)), "rt 3d " + o,
+                                       "inv", "lock", "walkrmc %d" % rng.getrandbits(6), "rt 3a %s 0" % o]))
+            ops += ["walk 1", "inv", "end"]
         sts.append(S("random-histories", ops))
         # distinct names with identical 32-bit hash in descending order, sorted; putstrf around the buffer sizes
         ops = []
